@@ -343,3 +343,36 @@ func verifH_C13_body_defaults() {
 	verifAssert(ValidateRequest(context.Background(), input) == nil, "C13 body defaults: the forwarded request validates again")
 	verifReach("end")
 }
+
+//verif:harness id=C13 tier=quick,thorough witness=end bounds="deepObject query parameter with a nested default {kind: all, tags: [x, y], page: {size: N}} (N in 0, 7, 1000000 as float64), absent from the request, next to another query parameter or not: the forwarded request carries the default in deepObject form (members, array items by index, nested members), it decodes back to the default value, the forwarded request validates again and a second validation changes nothing"
+func verifH_C13_deepobject_nested_defaults() {
+	verifMapOrder()
+	n := []float64{0, 7, 1000000}[verifChoose("n", 3)] // as a JSON document gives it
+	str := &openapi3.SchemaRef{Value: &openapi3.Schema{Type: &openapi3.Types{"string"}}}
+	schema := &openapi3.Schema{Type: &openapi3.Types{"object"}, Properties: openapi3.Schemas{
+		"kind": str,
+		"tags": {Value: &openapi3.Schema{Type: &openapi3.Types{"array"}, Items: str}},
+		"page": {Value: &openapi3.Schema{Type: &openapi3.Types{"object"}, Properties: openapi3.Schemas{"size": {Value: &openapi3.Schema{Type: &openapi3.Types{"integer"}}}}}},
+	}, Default: map[string]any{"kind": "all", "tags": []any{"x", "y"}, "page": map[string]any{"size": n}}}
+	explode := true
+	param := &openapi3.Parameter{Name: "f", In: "query", Style: "deepObject", Explode: &explode, Schema: &openapi3.SchemaRef{Value: schema}}
+	if param.Validate(context.Background()) != nil {
+		return
+	}
+	op := &openapi3.Operation{Parameters: openapi3.Parameters{{Value: param}}}
+	req := &http.Request{Method: "GET", Header: http.Header{}, URL: &url.URL{Path: "/"}}
+	if verifChoose("other", 2) == 1 {
+		req.URL.RawQuery = "other=1"
+	}
+	route := &routers.Route{Spec: &openapi3.T{}, PathItem: &openapi3.PathItem{Get: op}, Operation: op, Method: "GET"}
+	err := ValidateRequest(context.Background(), &RequestValidationInput{Request: req, Route: route, Options: &Options{}})
+	verifAssert(err == nil, "C13 nested deepObject default: a request without the optional parameter validates")
+	got, found, derr := decodeStyledParameter(param, &RequestValidationInput{Request: req})
+	verifAssert(derr == nil && found, "C13 nested deepObject default: the forwarded request carries the defaulted parameter")
+	want := map[string]any{"kind": "all", "tags": []any{"x", "y"}, "page": map[string]any{"size": int64(n)}}
+	verifAssert(verifSameJSON(got, want), "C13 nested deepObject default: the forwarded parameter decodes to the default value")
+	raw := req.URL.RawQuery
+	err2 := ValidateRequest(context.Background(), &RequestValidationInput{Request: req, Route: route, Options: &Options{}})
+	verifAssert(err2 == nil && req.URL.RawQuery == raw, "C13 nested deepObject default: the forwarded request validates again and a second validation changes nothing")
+	verifReach("end")
+}
